@@ -378,6 +378,33 @@ pub fn corpus(thorough: bool) -> Vec<Case> {
             }
         }
     }
+    // (2b) splices: the head of one archive followed by the tail of another (every 8th cut and around section starts)
+    {
+        let bases = base_archives();
+        for (ai, (an, a)) in bases.iter().enumerate() {
+            let (bn, b) = &bases[(ai + 3) % bases.len()];
+            let mut cuts: Vec<usize> = (0..a.len().min(b.len())).step_by(8).collect();
+            for c in [127usize, 126, 128] {
+                cuts.push(c);
+            }
+            if let Ok(h) = SHeader::decode(a) {
+                for o in [h.root_offset + h.root_length, h.meta_offset + h.meta_length, h.leaf_offset, h.leaf_offset + h.leaf_length, h.data_offset] {
+                    for d in [0u64, 1] {
+                        cuts.push((o + d) as usize);
+                    }
+                }
+            }
+            cuts.sort_unstable();
+            cuts.dedup();
+            for c in cuts {
+                if c <= a.len() && c <= b.len() {
+                    let mut m = a[..c].to_vec();
+                    m.extend_from_slice(&b[c..]);
+                    v.push(Case { bytes: m, target: Target::Archive, desc: format!("splice:{an}|{bn}:{c}") });
+                }
+            }
+        }
+    }
     // (3) structure-aware field deviations
     for comp in 1..=4u8 {
         for shape in 0..3u8 {
@@ -664,7 +691,7 @@ fn class_of(desc: &str) -> String {
 pub fn run(tier: &str) -> i32 {
     let rep = Report::new("C08", tier, "exploration");
     let thorough = rep.thorough();
-    rep.rule("deterministic neighbourhoods of 12 small valid archives (library-written and foreign, 0-7 tiles, with and without leaf levels, 4 compressions): every prefix; every single-byte substitution by {00,01,7F,80,FF}; structure-aware deviations of every varint field of every directory to {0,1,2^7,2^31,2^32-1,2^32,2^62,2^63,2^64-1} with lengths fixed up or left stale, of every header u64 to 10 boundary values and of the enum/zoom/version bytes to all 256 codes (thorough: all pairs of deviations); a hand-written hazard corpus (counts up to 2^64-1, wrapping id sums, zero first offset, contiguous-offset overflow, id+run overflow, section offsets near 2^64, self-pointing leaf, root as its own leaf, 2-cycle, leaf chains up to 10^4). Each input goes through Header/Directory/PMTiles readers, lookups, partial opens, re-writes, read_directories, decompress_all and the async twins inside worker processes (RLIMIT_AS 8 GiB, 8 MiB stack, 20 s alarm). non-trivial = inputs that differ from a valid archive; distinct = distinct byte strings");
+    rep.rule("deterministic neighbourhoods of 12 small valid archives (library-written and foreign, 0-7 tiles, with and without leaf levels, 4 compressions): every prefix; every single-byte substitution by {00,01,7F,80,FF}; splices of two archives at every 8th offset and at the section boundaries; structure-aware deviations of every varint field of every directory to {0,1,2^7,2^31,2^32-1,2^32,2^62,2^63,2^64-1} with lengths fixed up or left stale, of every header u64 to 10 boundary values and of the enum/zoom/version bytes to all 256 codes (thorough: all pairs of deviations); a hand-written hazard corpus (counts up to 2^64-1, wrapping id sums, zero first offset, contiguous-offset overflow, id+run overflow, section offsets near 2^64, self-pointing leaf, root as its own leaf, 2-cycle, leaf chains up to 10^4). Each input goes through Header/Directory/PMTiles readers, lookups, partial opens, re-writes, read_directories, decompress_all and the async twins inside worker processes (RLIMIT_AS 8 GiB, 8 MiB stack, 20 s alarm). non-trivial = inputs that differ from a valid archive; distinct = distinct byte strings");
     rep.assume("inputs whose directories declare more than 2^22 tiles/steps (lenient reference walk) are outside the claim and are counted as skipped");
     rep.assume("build has overflow checks on: arithmetic overflow is an observable panic");
     let cases = corpus(thorough);
@@ -679,6 +706,7 @@ pub fn run(tier: &str) -> i32 {
     rep.count("inputs", cases.len() as u64);
     rep.count("inputs_hazard_corpus", cases.iter().filter(|c| c.desc.starts_with("hazard")).count() as u64);
     rep.count("inputs_prefix", cases.iter().filter(|c| c.desc.starts_with("prefix")).count() as u64);
+    rep.count("inputs_splice", cases.iter().filter(|c| c.desc.starts_with("splice")).count() as u64);
     rep.count("inputs_byte_substitution", cases.iter().filter(|c| c.desc.starts_with("subst")).count() as u64);
     rep.count("inputs_field_deviation", cases.iter().filter(|c| c.desc.starts_with("field") || c.desc.starts_with("dirfield")).count() as u64);
     rep.count("inputs_header_deviation", cases.iter().filter(|c| c.desc.starts_with("header")).count() as u64);
